@@ -11,6 +11,9 @@ import Biogo.Proofs.ContGrid
 import Biogo.Proofs.ContCons
 import Biogo.Proofs.ContAln
 import Biogo.Proofs.ContAppend
+import Biogo.Proofs.ContSepWorld
+import Biogo.Proofs.ContModelObs
+import Biogo.Proofs.ContModelObs07
 import Biogo.Generated.Alphabets
 
 namespace Biogo.Properties.C07
@@ -387,5 +390,160 @@ theorem initial_multi_wellformed (cx : Ctx) (strand : Int) (rows : List SeqSpec)
     | [.multi m] => RowsCapWF (initWorld cx "multi" strand rows).cells m.rows
     | _ => False :=
   newLins_rowsCapWF cx Heap.empty rows
+
+/-! ### every reachable state is well formed
+
+The theorems above assume well-formedness of the container they speak about (`ColsWF`,
+`Aln.ColsValid`, `c.len ≤ c.cap`, `RowsCapWF`, `RowsWF`, `Lin.Valid`).  `WorldWF` (defined in
+Proofs/ContSep.lean) packages these for every object of a world, together with the separation
+of objects and caller buffers; it holds of the initial object of every history and is preserved
+by every operation, so the hypotheses hold of every state a history reaches. -/
+
+/-- **preservation**: `AppendColumns`, `AppendEach`, `Delete`, `Add`, `Flush`, `Truncate`,
+    `Subseq`, `Clone` — and every other operation of the histories, error returns and panics
+    included — take a well-formed world to a well-formed world -/
+theorem operation_preserves_wellformed (cx : Ctx) (w : World) (hw : WorldWF w) (op : Op) :
+    WorldWF (apply cx w op).1 :=
+  (step_all cx w hw op).1
+
+/-- **Reach**: every state reachable from a constructor (`linear.NewSeq/NewQSeq`,
+    `alignment.NewSeq/NewQSeq`, `multi.NewMulti`, `multi.Set`) by the modelled operations is
+    well formed -/
+theorem reachable_wellformed (cx : Ctx) (kind : String) (strand : Int) (rows : List SeqSpec) (ops : List Op) :
+    WorldWF (runOps cx (initWorld cx kind strand rows) ops) :=
+  reach_wf cx kind strand rows ops
+
+/-- what `WorldWF` gives for one object: exactly the hypotheses of the theorems of this file and
+    of C05 — for a column-stored alignment `ColsWF` for some number of rows `n` (which is
+    `Rows()` whenever there is a column, and then also the number of row annotations, so that
+    `Row(i)` for `i < Rows()` always finds its annotation), capacities, `ColsValid`, offset 0; for a multi
+    `RowsCapWF` and `RowsWF`; for a linear sequence `Lin.Valid` -/
+theorem wellformed_gives_hypotheses (w : World) (hw : WorldWF w) (k : Nat) :
+    (∀ a, w.objs[k]? = some (.aln a) →
+      a.off = 0 ∧ a.ColsValid w.cells ∧ (∀ c ∈ a.cols, c.len ≤ c.cap) ∧
+      ∃ n, ColsWF w.cells n a.cols ∧ (a.cols ≠ [] → a.rows = n ∧ a.subs.length = n)) ∧
+    (∀ m, w.objs[k]? = some (.multi m) → RowsCapWF w.cells m.rows ∧ RowsWF w.cells m.rows) ∧
+    (∀ m, w.objs[k]? = some (.set m) → RowsCapWF w.cells m.rows ∧ RowsWF w.cells m.rows) ∧
+    (∀ l, w.objs[k]? = some (.lin l) → l.Valid w.cells) := by
+  refine ⟨?_, ?_, ?_, ?_⟩
+  · intro a hk
+    obtain ⟨h0, n, hc, hsub⟩ := hw.obj k _ hk
+    refine ⟨h0, fun c hm => (hc.1.1 c hm).1, hc.cap, n, hc.toColsWF, ?_⟩
+    intro hne
+    refine ⟨?_, hsub hne⟩
+    cases hcols : a.cols with
+    | nil => exact (hne hcols).elim
+    | cons c cs =>
+      simp only [Aln.rows, Aln.rows?, hcols, List.head?_cons, Option.map_some, Option.getD_some]
+      exact hc.2 c (by rw [hcols]; exact List.mem_cons_self)
+  · intro m hk
+    have := hw.obj k _ hk
+    exact ⟨this, RowsCapWF.toRowsWF this⟩
+  · intro m hk
+    have := hw.obj k _ hk
+    exact ⟨this, RowsCapWF.toRowsWF this⟩
+  · intro l hk
+    exact CapValid.toValid (hw.obj k _ hk)
+
+/-- `clone_deep` for the edit histories of C07 (column-stored alignments and multis, all edit
+    operations, caller buffers): C05's `clone_deep_all`, restated here with the same proof -/
+theorem clone_deep_edits (cx : Ctx) (w : World) (hw : WorldWF w) (k : Nat) (o : Obj)
+    (hk : w.objs[k]? = some o) (hclonable : ∀ m, o ≠ .set m) (ops : List Op) :
+    let w1 := (apply cx w (.clone k)).1
+    ∃ c, w1.objs[w.objs.length]? = some c ∧ viewObj cx w1.cells c = viewObj cx w.cells o ∧
+      ((∀ op ∈ ops, op.written ≠ some k) →
+        (runOps cx w1 ops).objs[k]? = some o ∧
+        viewObj cx (runOps cx w1 ops).cells o = viewObj cx w.cells o) ∧
+      ((∀ op ∈ ops, op.written ≠ some w.objs.length) →
+        (runOps cx w1 ops).objs[w.objs.length]? = some c ∧
+        viewObj cx (runOps cx w1 ops).cells c = viewObj cx w.cells o) := by
+  intro w1
+  obtain ⟨c, hc, hobs⟩ := clone_view_equal cx w hw k o hk hclonable
+  obtain ⟨hw1, hoth1⟩ := step_all cx w hw (.clone k)
+  obtain ⟨hk1, hko⟩ := hoth1 k o (by simp [Op.written]) hk
+  refine ⟨c, hc, hobs, ?_, ?_⟩
+  · intro hnot
+    have r := untouched_all cx ops w1 hw1 k o hk1 hnot
+    exact ⟨r.1, r.2.trans hko⟩
+  · intro hnot
+    have r := untouched_all cx ops w1 hw1 w.objs.length c hc hnot
+    exact ⟨r.1, r.2.trans hobs⟩
+
+/-- **append_no_retain, over histories**: after `AppendColumns` / `AppendEach` from caller
+    buffers, any later sequence of writes to caller buffers (`mut`), creation of buffers and
+    operations on other objects leaves the alignment / multi observed exactly as it was — the
+    general form of `append_no_retain_aln`, for every container kind -/
+theorem append_no_retain_history (cx : Ctx) (w : World) (hw : WorldWF w) (app : Op) (k : Nat) (o' : Obj)
+    (hk' : (apply cx w app).1.objs[k]? = some o') (later : List Op)
+    (hnot : ∀ op ∈ later, op.written ≠ some k) :
+    (runOps cx (apply cx w app).1 later).objs[k]? = some o' ∧
+    viewObj cx (runOps cx (apply cx w app).1 later).cells o' = viewObj cx (apply cx w app).1.cells o' :=
+  untouched_all cx later _ (step_all cx w hw app).1 k o' hk' hnot
+
+/-! ### the model satisfies the declarative statements the executable laws stand for
+
+`Laws.RowEqColumnSpec`, `Laws.FrameSpec` (Proofs/ContLawsSound.lean) are the declarative
+statements that `lawRowEqColumn`, `lawFrame` are proved to imply of the implementation's
+observations (`C07_laws.c07_verdict_sound`).  Here they are proved of the model's own
+observations, for every reachable state: the same proposition is a theorem on the model's side
+and a sound executable check on the implementation's side. -/
+
+/-- **row_eq_column, observation level, every reachable state**: for every object of every state
+    a history reaches — column-stored alignment with or without qualities, multi with arbitrary
+    row offsets — `Rows()`/`Len()` agree with the rows and the span, and at every position of the
+    span entry `i` of `ColumnQL(pos, true)` / `Column(pos, true)` is what row `i` shows there
+    (`At`), the gap letter standing for rows that do not cover it (quality filter for
+    `alignment.QSeq.Column`); `Column(pos, false)` lists the covering rows' letters. -/
+theorem row_eq_column_reachable (cx : Ctx) (kind : String) (strand : Int) (rows : List SeqSpec) (ops : List Op) :
+    ∀ o ∈ (runOps cx (initWorld cx kind strand rows) ops).view cx, Laws.RowEqColumnSpec cx.gap cx.amb o :=
+  model_row_eq_column cx _ (reach_wf cx kind strand rows ops)
+
+/-- **append_no_retain / clone_deep, observation level**: after any operation on a well-formed
+    world every object it is not applied to is observed exactly as before (`mut` of a caller
+    buffer and `Clone` are applied to no object) -/
+theorem frame_on_observations (cx : Ctx) (w : World) (hw : WorldWF w) (op : Op) :
+    Laws.FrameSpec (w.view cx) ((apply cx w op).1.view cx) op.written :=
+  model_frame cx w hw op
+
+/-- `Clone`, observation level: the new object is observed exactly as the original -/
+theorem clone_equal_on_observations (cx : Ctx) (w : World) (hw : WorldWF w) (k : Nat) (o : Obj)
+    (hk : w.objs[k]? = some o) (hclonable : ∀ m, o ≠ .set m) :
+    ((apply cx w (.clone k)).1.view cx)[w.objs.length]? = (w.view cx)[k]? :=
+  model_clone_equal cx w hw k o hk hclonable
+
+/-- **delete_exact, observation level** (column-stored alignment in a well-formed state,
+    `ObjWF` = what `WorldWF` gives for the object): the rows observed after `Delete(i)` — letters
+    over the span, names, strands, offsets — are the rows observed before without row `i`, and
+    `Rows()` drops by one -/
+theorem delete_on_observations_aln (cx : Ctx) (h : Cells) (a : Aln) (hwf : ObjWF h (.aln a)) (i : Nat)
+    (hi : i < a.rows) :
+    Laws.DeleteSpec (viewObj cx h (.aln a)) (viewObj cx (a.delete h i).1 (.aln (a.delete h i).2)) i := by
+  obtain ⟨_, n, hc, _⟩ := hwf
+  exact model_delete_aln cx h a n hc i hi
+
+/-- **delete_exact, observation level** (multi) -/
+theorem delete_on_observations_multi (cx : Ctx) (h : Cells) (m : Multi) (i : Nat) (hi : i < m.nrows) :
+    Laws.DeleteSpec (viewObj cx h (.multi m)) (viewObj cx h (.multi (m.delete i))) i :=
+  model_delete_multi cx h m i hi
+
+/-- **subseq_truncate_exact (Truncate), observation level**: over a range every row of a
+    well-formed multi covers, `Truncate` reports no error and every row is observed to span
+    exactly `[st,en)` with exactly the cells it showed there -/
+theorem truncate_on_observations (cx : Ctx) (h : Cells) (m : Multi) (hwf : ObjWF h (.multi m)) (st en : Int)
+    (hse : st ≤ en) (hcov : ∀ r ∈ m.rows, r.start ≤ st ∧ en ≤ r.«end») :
+    (m.truncate st en).2 = true ∧
+    Laws.RangeSpec (viewObj cx h (.multi m)) (viewObj cx h (.multi (m.truncate st en).1)) st en :=
+  model_truncate_multi cx h m hwf st en hse hcov
+
+/-- **append_exact (AppendColumns), observation level** (column-stored alignment in a
+    well-formed state): when `AppendColumns` accepts its arguments every row is observed as
+    before followed by exactly the supplied letters (default quality for an alignment without
+    qualities), same start, end moved by the number of columns, same name / strand / kind -/
+theorem append_columns_on_observations (cx : Ctx) (h : Cells) (a : Aln) (hwf : ObjWF h (.aln a))
+    (rows : Nat) (hr : a.rows? = some rows) (colsIn : List (List QL)) (h' : Cells) (a' : Aln)
+    (happ : a.appendColumns cx h rows colsIn = some (h', a')) :
+    Laws.AppendColsSpec (viewObj cx h (.aln a)) (viewObj cx h' (.aln a')) colsIn := by
+  obtain ⟨_, n, hc, _⟩ := hwf
+  exact model_appendCols_aln cx h a n hc rows hr colsIn h' a' happ
 
 end Biogo.Properties.C07
